@@ -12,6 +12,8 @@
 package vsync
 
 import (
+	"fmt"
+	"sort"
 	"sync"
 	"unsafe"
 
@@ -21,9 +23,112 @@ import (
 // Pass-through names.
 type (
 	Locker = sync.Locker
-	Pool   = sync.Pool
-	Map    = sync.Map
 )
+
+//go:norace
+func atomicPoint(p unsafe.Pointer) {
+	if e := vrt.Cur(); e != nil {
+		e.Sched(vrt.OpAtomic, nil, p)
+	}
+}
+
+// Pool is sync.Pool made deterministic: a last-in-first-out free list. Get returns the
+// most recently Put item whenever there is one (sync.Pool may do exactly that, so every
+// behaviour here is a behaviour of the real pool; it is the one that exposes code which
+// keeps using an item after putting it back). Every pool is emptied when a controlled
+// execution starts, so an execution does not depend on what an earlier one left behind.
+// Get and Put are scheduling points.
+type Pool struct {
+	New func() any
+
+	mu    sync.Mutex // real; never held across a scheduling point
+	items []any
+	reg   bool
+}
+
+func (p *Pool) register() {
+	if !p.reg {
+		p.reg = true
+		vrt.RegisterReset(func() {
+			p.mu.Lock()
+			p.items = nil
+			p.mu.Unlock()
+		})
+	}
+}
+
+func (p *Pool) Get() any {
+	atomicPoint(unsafe.Pointer(p))
+	p.mu.Lock()
+	p.register()
+	var x any
+	if n := len(p.items); n > 0 {
+		x = p.items[n-1]
+		p.items[n-1] = nil
+		p.items = p.items[:n-1]
+	}
+	p.mu.Unlock()
+	if x == nil && p.New != nil {
+		x = p.New()
+	}
+	return x
+}
+
+func (p *Pool) Put(x any) {
+	if x == nil {
+		return
+	}
+	atomicPoint(unsafe.Pointer(p))
+	p.mu.Lock()
+	p.register()
+	p.items = append(p.items, x)
+	p.mu.Unlock()
+}
+
+// Map is sync.Map with a scheduling point before every operation (each operation of the
+// real map is atomic; the interleavings of interest are between operations).
+type Map struct{ m sync.Map }
+
+func (m *Map) Load(k any) (any, bool) { atomicPoint(unsafe.Pointer(m)); return m.m.Load(k) }
+func (m *Map) Store(k, v any)         { atomicPoint(unsafe.Pointer(m)); m.m.Store(k, v) }
+func (m *Map) Delete(k any)           { atomicPoint(unsafe.Pointer(m)); m.m.Delete(k) }
+func (m *Map) Clear()                 { atomicPoint(unsafe.Pointer(m)); m.m.Clear() }
+func (m *Map) LoadOrStore(k, v any) (any, bool) {
+	atomicPoint(unsafe.Pointer(m))
+	return m.m.LoadOrStore(k, v)
+}
+func (m *Map) LoadAndDelete(k any) (any, bool) {
+	atomicPoint(unsafe.Pointer(m))
+	return m.m.LoadAndDelete(k)
+}
+func (m *Map) Swap(k, v any) (any, bool) { atomicPoint(unsafe.Pointer(m)); return m.m.Swap(k, v) }
+func (m *Map) CompareAndSwap(k, o, n any) bool {
+	atomicPoint(unsafe.Pointer(m))
+	return m.m.CompareAndSwap(k, o, n)
+}
+func (m *Map) CompareAndDelete(k, o any) bool {
+	atomicPoint(unsafe.Pointer(m))
+	return m.m.CompareAndDelete(k, o)
+}
+
+// Range visits a snapshot of the entries taken at its scheduling point: the callback may
+// contain scheduling points of its own, and the real map's Range makes no promise about
+// entries stored or deleted meanwhile, so a snapshot is one of its behaviours.
+func (m *Map) Range(f func(k, v any) bool) {
+	atomicPoint(unsafe.Pointer(m))
+	type kv struct{ k, v any }
+	var snap []kv
+	m.m.Range(func(k, v any) bool { snap = append(snap, kv{k, v}); return true })
+	// the real order is random; a fixed one keeps executions reproducible
+	sort.SliceStable(snap, func(i, j int) bool {
+		return fmt.Sprintf("%T/%v", snap[i].k, snap[i].k) < fmt.Sprintf("%T/%v", snap[j].k, snap[j].k)
+	})
+	for _, e := range snap {
+		if !f(e.k, e.v) {
+			return
+		}
+	}
+}
 
 var OnceFunc = sync.OnceFunc
 
